@@ -39,6 +39,29 @@ def user_combiner(kind, n, rng):
     return kind, kind
 
 
+def disguise(f, rng, count=None, exact_ok=False):
+    """the same user function written the other ways users write it: under a name a library combiner also has (it is
+    still the user's function), in extended precision (np.longdouble), or in exact rationals. None of this changes the
+    function's value as a real number beyond rounding of its own arithmetic."""
+    if not callable(f):
+        return f
+    u = rng.random()
+    if u < 0.25:
+        nm = rng.choice(["fisher", "tippett", "liptak"])
+        def g(p, _f=f):
+            return _f(p)
+        g.__name__ = nm; g.__qualname__ = nm
+        if count: count("user-combiner-named-like-a-library-one")
+        return g
+    if u < 0.40:
+        if count: count("user-combiner-in-longdouble")
+        return lambda p, _f=f: _f(np.asarray(p, dtype=np.longdouble))
+    if u < 0.50 and exact_ok:      # only for the plain negative sum: exact rational arithmetic on the doubles it is given
+        if count: count("user-combiner-returning-Fraction")
+        return lambda p: -sum((Fr(float(x)) for x in p), Fr(0))
+    return f
+
+
 INF = float("inf")
 EMB = 10**9          # order embedding of +-inf for the exact oracle and the model (finite statistics are far smaller in absolute value)
 emb = lambda v: EMB if v == INF else (-EMB if v == -INF else v)
@@ -113,6 +136,7 @@ def run(ctx):
             kinds = [ctx.rng.choice(["np", "float"]) for _ in range(n)]
         e, tests, st = scripted_experiment(tv_impl, ts_impl, kinds)
         cfun, cname = user_combiner(comb, n, ctx.rng)
+        cfun = disguise(cfun, ctx.rng, ctx.count, exact_ok=(comb == "callable"))
         tests_before = list(tests)
         r = guarded(npc.sim_npc, e, tests, combine=cfun, reps=reps, in_place=ctx.rng.random() < 0.3)
         if len(tests) != len(tests_before) or any(a_ is not b_ for a_, b_ in zip(tests, tests_before)):
@@ -195,6 +219,7 @@ def run(ctx):
         c = 1 if plus1 else 0
         comb = ctx.rng.choice(["fisher", "tippett", "callable", "callable-dot", "callable-sum0", "callable-logsum0", "callable-truncated", "callable-count"])
         cfun, name = user_combiner(comb, n, ctx.rng)
+        cfun = disguise(cfun, ctx.rng, ctx.count, exact_ok=(comb == "callable"))
         if ctx.rng.random() < 0.6:
             pv = [Fr(ctx.rng.randint(1, B + c), B + c) for _ in range(n)]      # on the grid: ties with rows
         else:
